@@ -357,23 +357,11 @@ var bodyFiles = map[string]*facts.BodyFile{
 				Doc: "`match` = what `FindSubmatch` returned (nil = no match)."},
 		},
 	},
-	// C15: transport/telnet.go
-	"BodiesTelnet.lean": {
-		Imports:   []string{"ScrapliModel.Telnet"},
-		Namespace: "Scrapli.Gen.Bodies.Telnet",
+	// C15: util.ByteIsAny (the body of handleControlCharResponse is rendered by gen_c15.go)
+	"BodiesByteIsAny.lean": {
+		Namespace: "Scrapli.Gen.Bodies.ByteIsAny",
 		Fns: []*facts.FnSpec{
 			{Dir: "util", Name: "ByteIsAny", Lean: "byteIsAny"},
-			{Dir: "transport", Recv: "Telnet", Name: "handleControlCharResponse", Lean: "handleControlCharResponse",
-				Doc: "State: `data` = `t.initialBuf`, `replies` = the byte strings passed to `t.c.Write`, in order " +
-					"(every write is taken to succeed: it returns `len(b), nil`).",
-				State: []facts.StateVar{
-					{Key: "recv.initialBuf", Lean: "data", Ty: "bytes"},
-					{Key: "«writes to recv.c»", Lean: "replies", Ty: "list"},
-				},
-				Effects: map[string]facts.Effect{
-					"recv.c.Write": {State: "replies", ArgTy: "bytes",
-						Ret: []facts.Val{{Lean: "(Go.len %0)", Ty: "int"}, {Lean: "(none : Go.Error)", Ty: "error"}}},
-				}},
 		},
 	},
 	// C18: driver/generic/sendwithcallbacks.go
